@@ -638,6 +638,13 @@ class Interp:
                 R = common(a[0], b[0])
                 v = a[1] + b[1] if op == "+" else (a[1] - b[1] if op == "-" else a[1] * b[1])
                 return (R, wrap(v, R))
+            if op in ("<", ">", "<=", ">=", "==", "!=") and is_int(a[0]) and is_int(b[0]):
+                # the folded comparison reduces the mathematical values to the common type (a value that was never
+                # reduced to its own, narrower type keeps its sign there)
+                R = common(a[0], b[0])
+                x, y = wrap(a[1], R), wrap(b[1], R)
+                r = {"<": x < y, ">": x > y, "<=": x <= y, ">=": x >= y, "==": x == y, "!=": x != y}[op]
+                return (INT, 1 if r else 0)
         else:
             a = self.ev(e[2])
             b = self.ev(e[3])
